@@ -753,6 +753,8 @@ type op0 =
 
 val empty_state : state0
 
+val shadow_insert : group list -> item list -> z -> item -> state0 * out0
+
 val m_insert : state0 -> z -> arg -> state0 * out0
 
 val m_append : state0 -> arg -> state0 * out0
